@@ -53,11 +53,14 @@ CHECKS = {
  "C10": ("clustermc", "explicit-state BFS with rollback / new revision injected once per control state plus crash at any write; ordering monitor on the write log against the traffic oracle",
          "After a rollback or supersession, while the gateway still routes to the canary: the BatchRelease is not deleted / resumed (batchPartition nil), the workload is not handed back (control annotation removed) and the canary Service is not deleted.",
          "Same as C03.", "DESIGN.md §4 C10"),
+ "C17": ("deploymc", "explicit-state BFS (level-synchronous, sharded visited set) whose transitions are real syncDeployment calls of the advanced Deployment controller composed with a ReplicaSet-controller reference model; EVERY consistent bounded state is an initial state (inductive flavour); Tarjan SCC for convergence",
+         "From all 106k (quick) / 1.68 M (thorough) initial states over replicas 1..5/6, partition ints and percents, maxSurge / maxUnavailable alphabets, 1-2 old and 0-1 new ReplicaSets with availability: 566k / 8.1 M states, every one expanded by a real sync; at every ReplicaSet spec.replicas write: new ReplicaSet within the partition, old ReplicaSets not below their reserve, total within replicas + maxSurge, available old pods not below replicas - maxUnavailable; on the graph: with a partition covering all replicas every fair bottom component is {new = replicas, old = 0}.",
+         "Trusted: ReplicaSet-controller model, the oracle's reading of the partition / rounding rules (stated in the evidence assumptions); no informer lag.", "DESIGN.md §4 C17"),
  "C18": ("clustermc", "explicit-state BFS with deletion injected once per control state and crash / API error at every call of the teardown; monitor on every finalizer-removing write",
          "Whenever a controller removes its own finalizer from a Rollout / BatchRelease the residue predicate is empty at that instant (no canary route, stable Service not pinned, no BatchRelease, workload not marked controlled / in progress).",
          "TrafficRouting CR scenarios not yet in the quick tier.", "DESIGN.md §4 C18"),
- "C09": ("clustermc", "explicit-state BFS over the real reconcilers with every class of user-patchable nextStepIndex (<0, 0, in range, len+1, MaxInt32) injected once per control state; panic monitor around every Reconcile and event handler",
-         "No panic escapes any Reconcile or event handler on any explored path (recovered, top repository frame as signature).", "Stage 1 (spec enumeration through the validating webhook) not yet built; same trusted base as C01.", "DESIGN.md §4 C09"),
+ "C09": ("clustermc", "stage 1: exhaustive enumeration of Rollout specs (v1beta1 + v1alpha1, CREATE and UPDATE in every phase) through the real validating webhook; stage 2: explicit-state BFS over the real reconcilers with every class of user-patchable nextStepIndex (<0, 0, in range, len+1, MaxInt32) injected once per control state; panic monitor around every Reconcile and event handler",
+         "No panic escapes any Reconcile or event handler on any explored path (recovered, top repository frame as signature).", "Stage 1 runs first (engine E3, evidence embedded under coverage.stage1_validation_enumeration): ~950k (quick) / 6.5M (thorough) CREATE / UPDATE requests in both API versions through the real validating handler, structural promises asserted on the accepted set. Same trusted base as C01 for stage 2; CRD admissibility is interpreted by the check from config/crd/bases.", "DESIGN.md §4 C09"),
  "C11": ("clustermc", "explicit-state BFS over the real reconcilers; monitor on every BatchRelease status write against the pods in the store at that instant, and on every settled state",
          "Ready is reported only when the pods in the store satisfy the batch (updated >= planned, ready within threshold, >=1 ready); currentBatch never exceeds batchPartition; Completed only after the control annotation is gone (and all pods updated+ready under WaitResume); after a degrade / scale / plan edit no settled state keeps Ready while the workload no longer satisfies it.",
          "Same trusted base as C01.", "DESIGN.md §4 C11"),
